@@ -326,13 +326,34 @@ func ruleIdxUnits(c *Ctx) {
 					if !ok {
 						return true
 					}
+					// `v < m` (or `v <= m`) in any spelling (m > v, !(v >= m)), v the ranged value, m a local
 					be, ok := ast.Unparen(ifs.Cond).(*ast.BinaryExpr)
-					if !ok || be.Op != token.LSS {
+					if u, isNot := ast.Unparen(ifs.Cond).(*ast.UnaryExpr); isNot && u.Op == token.NOT {
+						be, ok = ast.Unparen(u.X).(*ast.BinaryExpr)
+					}
+					if !ok {
 						return true
 					}
 					x, ok1 := ast.Unparen(be.X).(*ast.Ident)
 					y, ok2 := ast.Unparen(be.Y).(*ast.Ident)
-					if !ok1 || !ok2 || info.Uses[x] != info.Defs[vid] {
+					if !ok1 || !ok2 {
+						return true
+					}
+					if info.Uses[y] == info.Defs[vid] {
+						x, y = y, x
+					}
+					if info.Uses[x] != info.Defs[vid] {
+						return true
+					}
+					cut, cp, cop := condCutOf(info, ifs.Cond, nil)
+					wp := polyAdd(polyAtom(x.Name), polyAtom(y.Name), -1)
+					isMin := false
+					for _, wop := range []token.Token{token.LSS, token.LEQ} {
+						if cut == canonCut(wp, wop) && cutSide(cp, cop) == cutSide(wp, wop) {
+							isMin = true
+						}
+					}
+					if !isMin {
 						return true
 					}
 					for _, st := range ifs.Body.List {
